@@ -72,7 +72,7 @@ def _one(args):
     if m:
         verdict, cex = 'counterexample', (m.group(1), m.group(3))
     elif 'error:' in out:
-        verdict, cex = 'counterexample', (out[out.index('error:'):][:300], None)
+        verdict = 'inconclusive'        # a CrossHair-internal error (NotDeterministic, ...), not a counterexample
     return {'shard': name, 'function': fn, 'fixed': fixed, 'verdict': verdict, 'cex': cex, 'wall_s': round(dt, 2),
             'raw': out[-400:] if verdict != 'confirmed' else ''}
 
@@ -111,7 +111,10 @@ def run(prop, tier, timeout=None, workers=16):
                      "import sys\n"
                      f"sys.path.insert(0, {ROOT!r})\n"
                      f"import {modname} as m\n"
-                     f"ok = m.{r['shard']}({argtxt or ''})\n"
+                     "try:\n"
+                     f"    ok = m.{r['shard']}({argtxt or ''})\n"
+                     "except Exception as e:\n"
+                     "    print('replay raised', repr(e)); sys.exit(3)\n"
                      f"print('condition {r['shard']}({argtxt}) ->', ok)\n"
                      "sys.exit(0 if ok else 1)\n")
         sig_extra = ''
